@@ -22,7 +22,7 @@ fn gen(rng: &mut Rng, case: u64) -> Case {
         t += dt;
         h.push(match rng.below(12) {
             0 => Ev::None,
-            1 => Ev::Err(1 + rng.below(2) as u8),
+            1 => Ev::Err(rng.err_code()),
             _ => Ev::Some(t, constant_input.unwrap_or_else(|| rng.moderate(1e4))),
         });
     }
